@@ -94,6 +94,7 @@ class ValueProfile:
             "flt_kinds": self.flt_kinds,
             "eager_full": rng.random() < 0.6,
             "limited": limited,
+            "burst": (rng.choice([600, 1200]) if (self.prop == "C07" and world == "W-POSC" and rng.random() < 0.12) else 0),
             "val_sweep": bool(limited) and self.use_interrupt and rng.random() < 0.25,
             "limited_cats": [[l["category"], l["quantity_type"]] for l in limited],
         }
@@ -103,6 +104,12 @@ class ValueProfile:
         from barril.units.unit_database import UnitDatabase
 
         if cfg["world"] == "W-SIMPLE":
+            if self.prop == "C07":
+                # an application that used the default database before it installed its own: the
+                # class-level empty quantity and the module-level unknown quantity already exist
+                from barril.units import Quantity
+
+                Quantity.CreateEmpty()
             db = UnitDatabase()
             UnitDatabase.FillSimple(db)
             UnitDatabase.PushSingleton(db)
@@ -159,10 +166,10 @@ REG_FORMS_SAFE = ["unit_dup", "base_dup", "cat_dup", "cat_foreign_default", "cat
 
 class C07(ValueProfile):
     prop = "C07"
+    reg_forms = REG_FORMS_SAFE + ["cat_retype"]
     expected_faults = ["F1.incompatible", "F1.unknown_name", "F2.peer_exception", "F5.restart", "F7.interrupt", "F7.interrupt_sweep_point"]
     use_reg = True
     intr_reg = True
-    reg_forms = REG_FORMS_SAFE
     client_bias = {"inspector": 1.5, "calculator": 1.5, "curator": 0.3, "registrar": 0.4}
     family_bias = {"curve": 0.2, "fixed": 0.4}
 
